@@ -30,9 +30,11 @@ const (
 	opRUnlock
 	opWGAdd
 	opWGWait
+	opCondWait
+	opCondSignal
 )
 
-var kindNames = [...]string{"start", "resume", "step", "go", "send", "recv", "close", "lock", "unlock", "rlock", "runlock", "wgadd", "wgwait"}
+var kindNames = [...]string{"start", "resume", "step", "go", "send", "recv", "close", "lock", "unlock", "rlock", "runlock", "wgadd", "wgwait", "condwait", "condsignal"}
 
 type op struct {
 	kind   opKind
@@ -45,6 +47,9 @@ type op struct {
 	ch     *chanState  // send/recv/close
 	mu     *MutexState // lock/unlock
 	wg     *WGState
+	cond   *CondState
+	ticket int
+	all    bool // condsignal: broadcast
 }
 
 type thread struct {
@@ -78,6 +83,16 @@ type MutexState struct {
 	id      int
 	owner   int // thread id, -1 = free
 	readers int
+}
+
+// CondState is the scheduler-side state of a vsync condition variable: waiters queue up in
+// arrival order; Signal wakes the oldest one that is still waiting, Broadcast all of them.
+type CondState struct {
+	owner0  *Sched
+	id      int
+	next    int
+	waiting []int
+	woken   map[int]bool
 }
 
 // WGState is the scheduler-side state of a vsync wait group.
@@ -130,6 +145,7 @@ type Sched struct {
 	chanStates []*chanState
 	mutexes    []*MutexState
 	wgs        []*WGState
+	conds      []*CondState
 	objs       map[uintptr]any // channel pointer -> *chanState; keeps channels alive
 	keep       []any
 	panicMsg   string
@@ -238,6 +254,8 @@ func (s *Sched) opEnabled(t *thread) (bool, *thread) {
 		return o.mu.owner < 0, nil
 	case opWGWait:
 		return o.wg.n == 0, nil
+	case opCondWait:
+		return o.cond.woken[o.ticket], nil
 	}
 	return true, nil
 }
@@ -370,6 +388,9 @@ func (s *Sched) stateKey() uint64 {
 	for _, w := range s.wgs {
 		h = mix(h, uint64(w.id)*17+uint64(w.n+1000))
 	}
+	for _, c := range s.conds {
+		h = mix(h, uint64(c.id)*19+uint64(len(c.waiting))*3+uint64(len(c.woken)))
+	}
 	return h
 }
 
@@ -417,6 +438,17 @@ func (s *Sched) apply(tr transition) {
 		o.mu.readers++
 	case opRUnlock:
 		o.mu.readers--
+	case opCondWait:
+		delete(o.cond.woken, o.ticket)
+	case opCondSignal:
+		c := o.cond
+		for len(c.waiting) > 0 {
+			c.woken[c.waiting[0]] = true
+			c.waiting = c.waiting[1:]
+			if !o.all {
+				break
+			}
+		}
 	case opWGAdd:
 		o.wg.n += o.delta
 	case opGo:
@@ -694,6 +726,45 @@ func WGOp(w *WGState, delta int, wait bool) bool {
 			panic("sync: negative WaitGroup counter")
 		}
 	}
+	return true
+}
+
+func (s *Sched) condOf(c *CondState) {
+	if c.id == 0 || c.owner0 != s {
+		s.nextObj++
+		*c = CondState{owner0: s, id: s.nextObj, woken: map[int]bool{}}
+		s.conds = append(s.conds, c)
+	}
+}
+
+// CondEnqueue registers the running thread as a waiter (no scheduling point: it happens while the
+// caller still holds the lock) and returns its ticket; ok=false outside an exploration.
+func CondEnqueue(c *CondState) (ticket int, ok bool) {
+	s := cur()
+	if s == nil {
+		return 0, false
+	}
+	s.condOf(c)
+	c.next++
+	c.waiting = append(c.waiting, c.next)
+	return c.next, true
+}
+
+// CondWait parks the running thread until its ticket has been signalled.
+func CondWait(c *CondState, ticket int) {
+	if s := cur(); s != nil {
+		s.yield(op{kind: opCondWait, obj: c.id, cond: c, ticket: ticket, shared: true})
+	}
+}
+
+// CondSignal is Signal (all=false) or Broadcast (all=true); false outside an exploration.
+func CondSignal(c *CondState, all bool) bool {
+	s := cur()
+	if s == nil {
+		return false
+	}
+	s.condOf(c)
+	s.yield(op{kind: opCondSignal, obj: c.id, cond: c, all: all, shared: true})
 	return true
 }
 
